@@ -88,7 +88,9 @@ HeapPayload(E, ty, v) ==
   CASE ty.k \in {"int", "bool", "unit", "compact", "nonzero", "optbool", "duration"} -> 0
     [] ty.k = "option" -> IF Len(v) = 0 THEN 0 ELSE HeapPayload(E, ty.t, v[1])
     [] ty.k = "result" -> IF "ok" \in DOMAIN v THEN HeapPayload(E, ty.t, v.ok) ELSE HeapPayload(E, ty.e, v.err)
-    [] ty.k = "seq" -> IF ZeroElems(E, ty) THEN 0
+    [] ty.k = "seq" -> IF ZeroElems(E, ty)
+                       THEN (IF ElemSize(E, ty.t) = 0 THEN 0
+                             ELSE LET n == ToNat(v.rep) IN IF n > 1048576 THEN 1048576 ELSE n * ElemSize(E, ty.t))   \* elements with an empty encoding may still occupy memory
                        ELSE Len(v) * ElemSize(E, ty.t) + SumSeq(LAMBDA x : HeapPayload(E, ty.t, x), v)
     [] ty.k = "set" -> (Len(v) * ty.esz) \div 2 + SumSeq(LAMBDA x : HeapPayload(E, ty.t, x), v)
     [] ty.k = "str" -> Len(v)
@@ -107,7 +109,8 @@ HeapFree(E, ty, v) ==
   CASE ty.k \in {"int", "bool", "unit", "compact", "nonzero", "optbool", "duration"} -> TRUE
     [] ty.k = "option" -> Len(v) = 0 \/ HeapFree(E, ty.t, v[1])
     [] ty.k = "result" -> IF "ok" \in DOMAIN v THEN HeapFree(E, ty.t, v.ok) ELSE HeapFree(E, ty.e, v.err)
-    [] ty.k = "seq" -> IF ZeroElems(E, ty) THEN IsZeroDig(v.rep) ELSE Len(v) = 0
+    \* a vector of zero-sized elements allocates nothing however long it is; a linked list allocates a node per element
+    [] ty.k = "seq" -> IF ZeroElems(E, ty) THEN (IsZeroDig(v.rep) \/ (ElemSize(E, ty.t) = 0 /\ ty.c # "list")) ELSE Len(v) = 0
     [] ty.k \in {"set", "str", "bits", "map"} -> Len(v) = 0
     [] ty.k = "array" -> \A i \in 1..Len(v) : HeapFree(E, ty.t, v[i])
     [] ty.k = "tuple" -> \A i \in 1..Len(ty.ts) : HeapFree(E, ty.ts[i], v[i])
